@@ -154,6 +154,37 @@ def r_window(db, rep):
                     want = mk_op("+", mk_op("-", ("local", right), ("local", left)), C(1))
                     if symx.has_unknown(count):
                         continue
+                    # the empty answer: locatePrefix reports no match as the pair (NORESULT, NORESULT) = (0, 0); unless the
+                    # construction sits under a test that excludes it, the iterator built from (0, 0) must have nothing to yield
+                    rep.ob()
+                    # only where [left, right] is an ID pair taken from a locatePrefix result (getLeftLimit / getRightLimit);
+                    # row ranges of the FM-index and XBW have their own empty-range conventions
+                    from_limits = 0
+                    for dn in g.live_nodes():
+                        if dn["k"] == "DeclStmt":
+                            for d0 in dn["decls"]:
+                                i0 = strip(d0.get("init")) if d0.get("init") is not None else None
+                                if i0 is not None and i0["k"] == "CXXMemberCallExpr" and callee_name(i0) in ("getLeftLimit", "getRightLimit") and \
+                                        d0.get("d") in (left, right):
+                                    from_limits += 1
+                    guarded = from_limits < 2
+                    for cnd, pol in g.cfg.guards(newn) if g.cfg is not None else []:
+                        if cnd is None:
+                            continue
+                        for x in walk(cnd):
+                            if x["k"] == "DeclRefExpr" and x.get("dk") == "local" and x.get("d") in (left, right):
+                                guarded = True
+                            if x["k"] == "CXXMemberCallExpr" and callee_name(x) in ("getLeftLimit", "getRightLimit"):
+                                guarded = True
+                    if not guarded:
+                        M = 1 << 64
+                        zero = {("local", left): 0, ("local", right): 0}
+                        f0 = symx.evaluate(subst_params(ep, args), zero)
+                        e0 = symx.evaluate(subst_params(es, args), zero)
+                        if f0 is not None and e0 is not None and (f0 % M) < (e0 % M):
+                            rep.viol("%s#empty-window" % g.qn, g.nloc(newn),
+                                     "%s builds %s unconditionally; for the no-match pair (left, right) = (0, 0) the iterator starts at %d with "
+                                     "end %d under its own protocol and yields %d phantom string(s)" % (g.qn, cls, f0 % M, e0 % M, (e0 - f0) % M), g.qn)
                     wit = symx.differ_witness(count, want)
                     if wit is not None:
                         rep.viol("%s#prefix-window" % g.qn, g.nloc(newn),
